@@ -3,7 +3,10 @@
 //! mode 0: (0 cfg mean ign texts oracles) -> (0) | (1 ((ids groups) ...) sparse? mask)
 //! mode 1: (1 ((groups mean) ...) (len ...)) -> (1 sparse? mask?)
 //! mode 2: (2 ((kind ids pad labels tids tpad) ...)) -> (1 (shape data) ...)
-//! sparse = (((row0) (row1) (row2)) (values scaled by 2^40) size group_lengths)
+//! mode 3: (3 group mean) -> (1 (w ...))   TokenGroup::get_weights called directly
+//! sparse = (((row0) (row1) (row2)) (values) size group_lengths)
+//! every f32 (matrix value, weight) is sent as the fields of `to_bits`: (k s m e), compared bit for bit with
+//! the binary32 model
 #[path = "../tok_common.rs"]
 mod tc;
 use tc::*;
@@ -27,8 +30,33 @@ fn tg_val(g: &TokenGroup) -> Val {
     }
 }
 
+/// an f32 as the fields of `to_bits`: (k s m e) — k = 0 zero, 1 finite non-zero (value m * 2^e with the
+/// canonical 24-bit or subnormal mantissa), 2 infinity, 3 NaN; s = 1 for negative
+fn f32_val(x: f32) -> Val {
+    let bits = x.to_bits();
+    let s = (bits >> 31) as i64;
+    let exp = ((bits >> 23) & 0xff) as i64;
+    let frac = (bits & ((1u32 << 23) - 1)) as i64;
+    let l = |k: i64, s: i64, m: i64, e: i64| Val::L(vec![Val::I(k), Val::I(s), Val::I(m), Val::I(e)]);
+    if exp == 0xff {
+        if frac == 0 {
+            l(2, s, 0, 0)
+        } else {
+            l(3, 0, 0, 0)
+        }
+    } else if exp == 0 {
+        if frac == 0 {
+            l(0, s, 0, 0)
+        } else {
+            l(1, s, frac, -149)
+        }
+    } else {
+        l(1, s, frac | (1i64 << 23), exp - 150)
+    }
+}
+
 fn val_tg(v: &Val, depth: usize) -> Option<TokenGroup> {
-    if depth > 6 {
+    if depth > 12 {
         return None;
     }
     let l = v.as_l()?;
@@ -36,8 +64,8 @@ fn val_tg(v: &Val, depth: usize) -> Option<TokenGroup> {
         return None;
     }
     Some(match l[0].as_i()? {
-        0 => TokenGroup::Empty(l[1].as_usize().filter(|n| *n <= 64)?),
-        1 => TokenGroup::Full(l[1].as_usize().filter(|n| *n <= 64)?),
+        0 => TokenGroup::Empty(l[1].as_usize().filter(|n| *n <= 512)?),
+        1 => TokenGroup::Full(l[1].as_usize().filter(|n| *n <= 512)?),
         2 => {
             let sub = l[1].as_l()?;
             if sub.len() > 16 {
@@ -67,7 +95,7 @@ fn sparse_val(groupings: &[Grouping], lengths: &[usize]) -> (Val, Option<Vec<usi
         Ok(Some((rows, values, size, gl))) => (
             Val::some(Val::L(vec![
                 Val::list(rows.iter(), |r| Val::list(r.iter(), |x| Val::I(*x as i64))),
-                Val::list(values.iter(), |w| Val::I((*w as f64 * (1u64 << 40) as f64).round() as i64)),
+                Val::list(values.iter(), |w| f32_val(*w)),
                 Val::list(size.iter(), |x| Val::u(*x)),
                 Val::list(gl.iter(), |x| Val::u(*x)),
             ])),
@@ -95,6 +123,58 @@ fn gen_tg(rng: &mut Rng, depth: usize) -> TokenGroup {
             TokenGroup::Nested((0..n).map(|_| gen_tg(rng, depth + 1)).collect())
         }
     }
+}
+
+/// a group length for the float stream: mostly numbers whose reciprocal is not a binary32 (3, 5, 6, 7, 9, ...),
+/// sometimes a power of two (exact), rarely large
+fn float_len(rng: &mut Rng) -> usize {
+    match rng.below(10) {
+        0 => 1 << rng.below(6),
+        1 => rng.range(20, 64),
+        _ => rng.range(1, 13),
+    }
+}
+
+/// groups for the float stream: every nested part contains a token (so that the Mean weights of the group sum
+/// to one), lengths with inexact reciprocals, nesting up to depth 5, the product of the lengths on a path varied
+fn gen_tg_float(rng: &mut Rng, depth: usize, budget: usize) -> TokenGroup {
+    if depth >= 5 || budget <= 1 || rng.chance(2, 5) {
+        return TokenGroup::Full(float_len(rng).min(budget.max(1)));
+    }
+    let n = rng.range(1, 6).min(budget);
+    let mut sub: Vec<TokenGroup> = (0..n).map(|_| gen_tg_float(rng, depth + 1, budget / n)).collect();
+    if rng.chance(1, 12) {
+        let k = rng.below(3);
+        sub.push(TokenGroup::Empty(k));
+    }
+    TokenGroup::Nested(sub)
+}
+
+fn gen_mode3(rng: &mut Rng) -> Val {
+    let g = match rng.below(10) {
+        0 => gen_tg(rng, 0),
+        1 => TokenGroup::Full(match rng.below(4) {
+            0 => 0,
+            1 => rng.range(65, 512),
+            _ => float_len(rng),
+        }),
+        2 => {
+            // a chain: one token under k nested levels of sizes with inexact reciprocals (many roundings on one path)
+            let k = rng.range(1, 10);
+            let mut g = TokenGroup::Full(float_len(rng).min(8));
+            for _ in 0..k {
+                let n = rng.range(1, 4);
+                let mut sub = vec![g];
+                for _ in 1..n {
+                    sub.push(TokenGroup::Full(1));
+                }
+                g = TokenGroup::Nested(sub);
+            }
+            g
+        }
+        _ => gen_tg_float(rng, 0, 48),
+    };
+    Val::L(vec![Val::I(3), tg_val(&g), Val::b(rng.chance(3, 4))])
 }
 
 fn gen_mode0(rng: &mut Rng) -> Val {
@@ -126,7 +206,8 @@ fn gen_mode1(rng: &mut Rng) -> Val {
     let all_mean = rng.chance(1, 3);
     for _ in 0..n {
         let k = rng.below(7);
-        let groups: Vec<TokenGroup> = (0..k).map(|_| gen_tg(rng, 0)).collect();
+        let fl = rng.chance(1, 3);
+        let groups: Vec<TokenGroup> = (0..k).map(|_| if fl { gen_tg_float(rng, 1, 16) } else { gen_tg(rng, 0) }).collect();
         let total: usize = groups.iter().map(|g| g.len()).sum();
         lengths.push(total);
         items.push(Val::L(vec![Val::list(groups.iter(), tg_val), Val::b(all_mean || rng.chance(1, 2))]));
@@ -373,12 +454,50 @@ fn run_mode2(l: &[Val]) -> Option<(Val, Vec<String>)> {
     Some((out, tags))
 }
 
+fn tg_size(g: &TokenGroup) -> usize {
+    match g {
+        TokenGroup::Nested(l) => 1 + l.iter().map(tg_size).sum::<usize>(),
+        _ => 1,
+    }
+}
+
+fn run_mode3(l: &[Val]) -> Option<(Val, Vec<String>)> {
+    if l.len() != 3 {
+        return None;
+    }
+    let g = val_tg(&l[1], 0)?;
+    if g.len() > 4096 || tg_size(&g) > 4096 {
+        return None;
+    }
+    let mean = l[2].as_bool()?;
+    let g2 = g.clone();
+    let out = guard(move || {
+        let w = g2.get_weights(agg(mean));
+        Val::L(vec![Val::I(1), Val::list(w.iter(), |x| f32_val(*x))])
+    });
+    let mut tags = vec!["weights".to_string(), if mean { "mean" } else { "sum" }.to_string()];
+    // non-trivial: Mean, nested, and some weight is not a power of two (a rounding happened)
+    let inexact = out
+        .nth(1)
+        .and_then(|v| v.as_l())
+        .map(|ws| ws.iter().any(|w| w.nth(2).and_then(|m| m.as_i()).map(|m| m != 0 && m != (1 << 23)).unwrap_or(false)))
+        .unwrap_or(false);
+    if inexact {
+        tags.push("inexact".into());
+    }
+    if mean && matches!(g, TokenGroup::Nested(_)) && inexact {
+        tags.push("nt".into());
+    }
+    Some((out, tags))
+}
+
 impl Prop for C17 {
     fn gen(&mut self, rng: &mut Rng, _tier: Tier, _i: usize, _n: usize) -> Val {
-        match rng.below(10) {
-            0..=4 => gen_mode0(rng),
-            5..=7 => gen_mode1(rng),
-            _ => gen_mode2(rng),
+        match rng.below(20) {
+            0..=8 => gen_mode0(rng),
+            9..=13 => gen_mode1(rng),
+            14..=16 => gen_mode2(rng),
+            _ => gen_mode3(rng),
         }
     }
 
@@ -388,6 +507,7 @@ impl Prop for C17 {
             0 => run_mode0(l),
             1 => run_mode1(l),
             2 => run_mode2(l),
+            3 => run_mode3(l),
             _ => None,
         }
     }
